@@ -32,7 +32,7 @@ var errPartition = errors.New("partition failed")
 // returned an error, and NumSuccessfulPartitions counts no such partition. Run-to-block schedule:
 // one goroutine per partition, run when the leader's select has nothing ready.
 //
-//zx:harness prop=C13 id=C13.C tier=quick env=cluster replay=interp P=2 K=2 thorough.P=3
+//zx:harness prop=C13 id=C13.C tier=quick env=cluster replay=interp P=2 K=2 thorough.P=3 thorough.K=3 thorough.shard=unflat:2,behaviour0:4
 func zxC13QueryCluster() {
 	P := vrtParam("P", 2)
 	K := vrtParam("K", 2)
